@@ -22,6 +22,7 @@ static void g711_container (const Fmt *f, int law)
 	if (vl_write (sf, T_SHORT, 0, in, 65536) != 65536) vl_violation (sig ("g711|%s|short-write", rt_fam (f)), "short write") ;
 	INLIB (sf_close (sf)) ;
 	/* locate the 65536 data bytes: they are the only run that matches the reference encoding; search from the end */
+	long data_off = -1 ;
 	{	long off = -1 ;
 		for (long cand = dev.len - 65536 ; cand >= 0 && cand >= dev.len - 65536 - 16 ; cand --)
 		{	int ok = 1 ;
@@ -29,6 +30,7 @@ static void g711_container (const Fmt *f, int law)
 				ok = dev.data [cand + i] == (law ? ref_alaw_encode (in [i]) : ref_ulaw_encode (in [i])) ;
 			if (ok) { off = cand ; break ; }
 			}
+		data_off = off ;
 		if (off < 0) vl_violation (sig ("g711|%s|encode", rt_fam (f)), "data bytes do not match G.711 encoding of the 65536 shorts") ;
 		else
 			for (int i = 0 ; i < 65536 ; i++)
@@ -52,9 +54,9 @@ static void g711_container (const Fmt *f, int law)
 				if (dev.len != first_len) vl_violation (sig ("g711|%s|encode-%s", rt_fam (f), type_names [type]), "file length %lld differs from the short-entry file's %lld", (long long) dev.len, (long long) first_len) ;
 				else
 					for (int i = 0 ; i < 65536 ; i++)
-					{	unsigned e = law ? ref_alaw_encode (in [i]) : ref_ulaw_encode (in [i]) ; sf_count_t at = dev.len - 65536 + i ;
-						if (in [i] % grid) continue ;
-						if (at >= 0 && dev.data [at] != e && ebad ++ == 0)
+					{	unsigned e = law ? ref_alaw_encode (in [i]) : ref_ulaw_encode (in [i]) ; sf_count_t at = data_off + i ;	/* same container, same layout as the short-entry file */
+						if (in [i] % grid || data_off < 0) continue ;
+						if (at >= 0 && at < dev.len && dev.data [at] != e && ebad ++ == 0)
 							vl_violation (sig ("g711|%s|encode-%s", rt_fam (f), type_names [type]), "%s entry: value %d encoded as 0x%02x, G.711 gives 0x%02x", type_names [type], in [i], dev.data [at], e) ;
 						}
 				oh = vl_hash (dev.data, dev.len, oh) ;
